@@ -192,6 +192,18 @@ Section OnceImpl.
   Definition abs (c : cconfig) : config V :=
     Config (once_of (cc_done c) (cc_mutex c) (cc_threads c)) (cc_R c) (map abs_thread (cc_threads c)) (cc_trace c).
 
+  (* The plain (non-atomic) memory access thread t's next step performs. *)
+  Definition cnext_access (c : cconfig) (t : tid) : option access :=
+    match nth_error (cc_threads c) t with
+    | None => None
+    | Some th =>
+      match ct_pc th with
+      | CWrite _ i => if i <? arity then Some (AWrite i) else None
+      | CRead acc => if length acc <? arity then Some (ARead (length acc)) else None
+      | _ => None
+      end
+    end.
+
   Definition cfinished (c : cconfig) : Prop :=
     forall t th, nth_error (cc_threads c) t = Some th -> ct_pc th = CDead \/ (ct_pc th = CIdle /\ ct_prog th = []).
 End OnceImpl.
@@ -230,3 +242,4 @@ Arguments abs_thread {V}.
 Arguments once_of {V}.
 Arguments abs {V}.
 Arguments cfinished {V}.
+Arguments cnext_access {V}.
